@@ -1,5 +1,6 @@
 import Pixman.Model.Matrix
 import Pixman.Model.MatrixF
+import Pixman.Model.MatrixQ
 /-! Line-protocol driver for the matrix domain (C11).  One request per line, one reply per line.
     Integers travel in decimal; a transform is 9 integers in row order; an optional transform
     pointer is `-` (NULL) or `+` followed by 9 integers. -/
@@ -39,6 +40,10 @@ def fmtOV : Option Vec → String
   | some v => fmtV v
 def fmtPair (r : Bool × Option Transform × Option Transform) : String :=
   fmtB r.1 ++ " " ++ fmtOptT r.2.1 ++ " " ++ fmtOptT r.2.2
+
+def fmtQ (r : Rat) : String := s!"{r.num}/{r.den}"
+def fmtFT (m : Pixman.MatrixQ.FT) : String :=
+  s!"{fmtQ m.m00} {fmtQ m.m01} {fmtQ m.m02} {fmtQ m.m10} {fmtQ m.m11} {fmtQ m.m12} {fmtQ m.m20} {fmtQ m.m21} {fmtQ m.m22}"
 
 def request : P String := do
   let op ← tok
@@ -91,12 +96,41 @@ def request : P String := do
     let hi ← i64; let lo ← i64; let sb ← int
     let (rhi, rlo) := fixed6416ToInt128 hi lo sb
     pure s!"{rhi} {rlo}"
+  -- reply = `<bit-exact Float mirror> | <exact rational model>`; the rational part is `0 S` (singular),
+  -- `0 O` (an entry of the exact inverse outside [-32767, 32767]) or `1` + the nine nearest 16.16 values
   | "invert" => do
     let t ← transform
-    match Pixman.MatrixF.invert t with
+    let f := match Pixman.MatrixF.invert t with
+      | none => "0"
+      | some none => "UNDEF"
+      | some (some l) => "1" ++ String.join (l.map fun x => s!" {x}")
+    let q := match Pixman.MatrixQ.fInvert (Pixman.MatrixQ.fromFixed t) with
+      | none => "0 S"
+      | some d => match Pixman.MatrixQ.toFixed d with
+        | none => "0 O"
+        | some r => "1 " ++ fmtT r
+    pure (f ++ " | " ++ q)
+  -- floating point entry points on the exact rational model; rationals travel as `num/den` (reduced, den > 0)
+  | "f_invert" => do
+    let t ← transform
+    match Pixman.MatrixQ.fInvert (Pixman.MatrixQ.fromFixed t) with
+    | none => pure "0 S"
+    | some d => pure ("1 " ++ fmtFT d)
+  | "f_point" => do
+    let t ← transform; let v ← vec32
+    let ft := Pixman.MatrixQ.fromFixed t
+    let fv : Pixman.MatrixQ.FV := ⟨Pixman.MatrixQ.fixedToRat v.x, Pixman.MatrixQ.fixedToRat v.y, Pixman.MatrixQ.fixedToRat v.z⟩
+    let p3 := Pixman.MatrixQ.fPoint3d ft fv
+    let p := match Pixman.MatrixQ.fPoint ft fv with
+      | none => "0"
+      | some p => s!"1 {fmtQ p.x} {fmtQ p.y} {fmtQ p.z}"
+    pure s!"{fmtQ p3.x} {fmtQ p3.y} {fmtQ p3.z} ; {p}"
+  | "f_bounds" => do
+    let t ← transform
+    let b : Pixman.MatrixQ.BoxZ := ⟨← i16, ← i16, ← i16, ← i16⟩
+    match Pixman.MatrixQ.fBounds (Pixman.MatrixQ.fromFixed t) b with
     | none => pure "0"
-    | some none => pure "UNDEF"
-    | some (some l) => pure ("1" ++ String.join (l.map fun x => s!" {x}"))
+    | some r => pure s!"1 {r.x1} {r.y1} {r.x2} {r.y2}"
   | "finv" => do let x ← i32; pure s!"{fixedInverse x}"
   | _ => failure
 
